@@ -122,6 +122,7 @@ def errToString : Err → String
   | .keyId i => "(error keyid " ++ toString i ++ ")"
   | .notImplemented n => "(error not-implemented " ++ toString (nodeToSexp n) ++ ")"
   | .name s => "(error name " ++ s ++ ")"
+  | .reserved => "(error reserved)"
   | .fuel => "(error fuel)"
 
 def showProg : Except Err Prog → String
@@ -141,6 +142,7 @@ def rhsToSexp : Rhs → Sexp
 
 def codeToSexp (c : Code) : Sexp :=
   .list [.list (c.params.map .str),
+         Sexp.ofNat c.pfx,
          .list (c.lets.map fun (i, r) => .list [Sexp.ofNat i, rhsToSexp r]),
          match c.ret with | some i => Sexp.ofNat i | none => .atom "none"]
 
@@ -209,11 +211,17 @@ def handle (args : List Sexp) : String :=
     | _, _, _ => "err bad-args"
   | [.atom "exec", p, cs, kw] =>
     match parseProg p, parseVals cs, parseKw kw with
-    | some p, some cs, some kw => "ok " ++ showVal (execCode (interp cs) (asCode p) kw)
+    | some p, some cs, some kw =>
+      match asCode p with
+      | .ok c => "ok " ++ showVal (execCode (interp cs) c kw)
+      | .error e => "ok " ++ errToString e
     | _, _, _ => "err bad-args"
   | [.atom "ascode", p] =>
     match parseProg p with
-    | some p => "ok " ++ toString (codeToSexp (asCode p))
+    | some p =>
+      match asCode p with
+      | .ok c => "ok " ++ toString (codeToSexp c)
+      | .error e => "ok " ++ errToString e
     | none => "err bad-prog"
   | [.atom "trace", vars, allow, tr, root, kwids] =>
     match vars.asNats?, allow.asBool?, parseTrace tr, root.asNat?, parseKwIds kwids with
